@@ -95,7 +95,8 @@ def run(ctx, replay=None):
         for (name, seed), r in zip(g, res):
             if interp and (name, seed) in compiled_seen:
                 continue            # already judged with the compiled kernels
-            ok = not r.get("err") and not r.get("diff") and r.get("fit_returns_self") and not r.get("refit_diff")
+            ok = (not r.get("err") and not r.get("diff") and r.get("fit_returns_self") and not r.get("refit_diff")
+                  and not r.get("same_object_diff"))
             ctx.count_case([name, seed], nontrivial=bool(r.get("nnz")), kind=name + (" (NUMBA_DISABLE_JIT=1)" if interp else ""))
             if name in COOC or name == "NgramVectorizer":
                 p = r.get("params", {})
@@ -110,6 +111,9 @@ def run(ctx, replay=None):
                 what = "%s(seed %d, %s): %s: %s" % (name, seed, r.get("params"), r["err"], r.get("msg"))
             elif not r.get("fit_returns_self"):
                 what = "%s.fit(X) does not return the estimator" % name
+            elif not r.get("diff") and r.get("same_object_diff"):
+                what = ("%s(seed %d, %s): fit(X).transform(X) with one input object for both calls differs from "
+                        "fit_transform(X): %s" % (name, seed, r.get("params"), r["same_object_diff"]))
             elif not r.get("diff"):
                 what = ("%s(seed %d, %s): an estimator that was fitted and used before gives different results after "
                         "refitting on X than a fresh one: %s" % (name, seed, r.get("params"), r["refit_diff"]))
